@@ -30,6 +30,7 @@ type tok struct {
 
 type fn struct {
 	Name   string `json:"name"`
+	File   string `json:"file"`
 	Tokens []tok  `json:"tokens"`
 }
 
@@ -215,7 +216,7 @@ func (p *printer) stmt(s ast.Stmt) {
 	case *ast.EmptyStmt:
 	case *ast.DeclStmt:
 		gd, ok := s.Decl.(*ast.GenDecl)
-		if !ok || gd.Tok != token.VAR {
+		if !ok || (gd.Tok != token.VAR && gd.Tok != token.CONST) {
 			p.emit("UNKNOWN:DeclStmt", s)
 			return
 		}
@@ -229,7 +230,7 @@ func (p *printer) stmt(s ast.Stmt) {
 			for _, n := range vs.Names {
 				names = append(names, n.Name)
 			}
-			t := "var " + strings.Join(names, ", ")
+			t := gd.Tok.String() + " " + strings.Join(names, ", ")
 			if vs.Type != nil {
 				t += " " + p.expr(vs.Type)
 			}
@@ -387,73 +388,86 @@ func main() {
 	}
 	repo := flag.String("repo", def, "repository root")
 	out := flag.String("out", "", "write JSON here (default stdout)")
-	set := flag.String("set", "sm", "sm = internal/execute/sm/sm.go (mechanism models); api = internal/execute/execute.go (Start, runPlan, Wait; C12)")
+	set := flag.String("set", "sm", "sm = internal/execute/sm/sm.go (mechanism models); api = internal/execute/execute.go (Start, runPlan, Wait; C12); readers = sqlite+cosmosdb reader.go Search/List (C15); attempts = sm/actions/actions.go run (C05)")
 	flag.Parse()
 
-	path := filepath.Join(*repo, "internal", "execute", "sm", "sm.go")
+	type source struct {
+		path, prefix string
+		whole, filt  []string
+	}
+	var sources []source
 	switch *set {
 	case "sm":
+		sources = []source{{filepath.Join(*repo, "internal", "execute", "sm", "sm.go"), "", whole, makeChanOnly}}
 	case "api":
-		path = filepath.Join(*repo, "internal", "execute", "execute.go")
-		whole = []string{"Start", "runPlan", "Wait"}
-		makeChanOnly = nil
+		sources = []source{{filepath.Join(*repo, "internal", "execute", "execute.go"), "", []string{"Start", "runPlan", "Wait"}, nil}}
+	case "readers": // C15: the Search/List producers of both stores
+		sources = []source{
+			{filepath.Join(*repo, "workflow", "storage", "sqlite", "reader.go"), "sqlite.", []string{"Search", "List"}, nil},
+			{filepath.Join(*repo, "workflow", "storage", "cosmosdb", "reader.go"), "cosmosdb.", []string{"Search", "List"}, nil},
+		}
+	case "attempts": // C05: one plugin invocation under a deadline
+		sources = []source{{filepath.Join(*repo, "internal", "execute", "sm", "actions", "actions.go"), "", []string{"run"}, nil}}
 	default:
 		fmt.Fprintln(os.Stderr, "unknown -set", *set)
 		os.Exit(2)
 	}
-	fset := token.NewFileSet()
-	file, err := parser.ParseFile(fset, path, nil, parser.SkipObjectResolution)
-	if err != nil {
-		fmt.Fprintln(os.Stderr, "parse:", err)
-		os.Exit(2)
-	}
-	decls := map[string]*ast.FuncDecl{}
-	dup := map[string]bool{}
-	for _, d := range file.Decls {
-		if fd, ok := d.(*ast.FuncDecl); ok && fd.Body != nil {
-			if _, seen := decls[fd.Name.Name]; seen {
-				dup[fd.Name.Name] = true // same name on two receivers: ambiguous, fail closed below
-			}
-			decls[fd.Name.Name] = fd
-		}
-	}
+	path := sources[0].path
 	var fns []fn
-	add := func(name string, filter bool) {
-		p := &printer{fset: fset}
-		fd := decls[name]
-		switch {
-		case fd == nil:
-			p.emit("UNKNOWN:function not found", nil)
-		case dup[name]:
-			p.emit("UNKNOWN:function declared twice", fd)
-		case filter:
-			ast.Inspect(fd.Body, func(n ast.Node) bool {
-				if s, ok := n.(ast.Stmt); ok {
-					switch s.(type) {
-					case *ast.AssignStmt, *ast.ExprStmt, *ast.DeclStmt:
-						if containsMakeChan(s) {
-							p.stmt(s)
-						}
-						return false
-					}
-				}
-				return true
-			})
-		default:
-			recv := ""
-			if fd.Recv != nil {
-				recv = "(" + p.fields(fd.Recv) + ") "
-			}
-			p.emit("func "+recv+name+p.signature(fd.Type), fd)
-			p.block(fd.Body)
+	for _, src := range sources {
+		fset := token.NewFileSet()
+		file, err := parser.ParseFile(fset, src.path, nil, parser.SkipObjectResolution)
+		if err != nil {
+			fmt.Fprintln(os.Stderr, "parse:", err)
+			os.Exit(2)
 		}
-		fns = append(fns, fn{Name: name, Tokens: p.out})
-	}
-	for _, n := range makeChanOnly {
-		add(n, true)
-	}
-	for _, n := range whole {
-		add(n, false)
+		decls := map[string]*ast.FuncDecl{}
+		dup := map[string]bool{}
+		for _, d := range file.Decls {
+			if fd, ok := d.(*ast.FuncDecl); ok && fd.Body != nil {
+				if _, seen := decls[fd.Name.Name]; seen {
+					dup[fd.Name.Name] = true // same name on two receivers: ambiguous, fail closed below
+				}
+				decls[fd.Name.Name] = fd
+			}
+		}
+		add := func(name string, filter bool) {
+			p := &printer{fset: fset}
+			fd := decls[name]
+			switch {
+			case fd == nil:
+				p.emit("UNKNOWN:function not found", nil)
+			case dup[name]:
+				p.emit("UNKNOWN:function declared twice", fd)
+			case filter:
+				ast.Inspect(fd.Body, func(n ast.Node) bool {
+					if s, ok := n.(ast.Stmt); ok {
+						switch s.(type) {
+						case *ast.AssignStmt, *ast.ExprStmt, *ast.DeclStmt:
+							if containsMakeChan(s) {
+								p.stmt(s)
+							}
+							return false
+						}
+					}
+					return true
+				})
+			default:
+				recv := ""
+				if fd.Recv != nil {
+					recv = "(" + p.fields(fd.Recv) + ") "
+				}
+				p.emit("func "+recv+name+p.signature(fd.Type), fd)
+				p.block(fd.Body)
+			}
+			fns = append(fns, fn{Name: src.prefix + name, File: src.path, Tokens: p.out})
+		}
+		for _, n := range src.filt {
+			add(n, true)
+		}
+		for _, n := range src.whole {
+			add(n, false)
+		}
 	}
 	if *set == "sm" {
 		// the worker pool / group whose semantics Limiter.v transcribes is a pinned dependency
